@@ -396,10 +396,9 @@ class P(Property):
                     if n <= 4097:
                         out.append('q.dec %d 0000%s' % (n + 40, (pre + pint(n_, fl, len(body)) + body + tail).hex()))
                 # the same strings through the encoder
-                if n <= 65536:
+                if n <= (4097 if quick else 16511):
                     out.append('q.enc ' + fields_str([(b':path', s)]))
-                    if n <= 4097:
-                        out.append('q.enc ' + fields_str([(s, s[:7])]))
+                    out.append('q.enc ' + fields_str([(s, s[:7])]))
         # --- big blocks: 300 fields of 300 octets
         for _ in range(1 if quick else 8):
             out.append('q.enc ' + fields_str([(b'n%d' % i, rb(rng, 300)) for i in range(300)]))
